@@ -38,7 +38,7 @@ REQUIRED_MONITORS = ['contract:PLSSDesc.parse', 'contract:Tract.parse',
                      'contract:PLSSDesc.preprocess',
                      'contract:Tract.preprocess', 'relation:no-commit',
                      'relation:repeat', 'relation:replay',
-                     'relation:entry-points',
+                     'relation:entry-points', 'relation:fresh-before-after',
                      'tract-relation:replay']
 
 TEXTS = [
@@ -51,6 +51,8 @@ TEXTS = [
     "foo bar", "T154N-R97W Section NE/4",
     "T154N-R97W Sec 9 - 7: N/2 of Lot 1, Lot 1, Lots 5 - 3 (40.00)",
     "T154N-R97W Sec 14: NE/4; W/2 of Sec 3, T155N-R97W",
+    # OCR artefacts in the Twp/Rge: read only under ocr_scrub
+    "T1S4N-R97W Sec 14: Lots 1, 1, NE/4\nTlS5N-R97W Sec 3: W/2",
 ]
 TRACT_TEXTS = [
     "Lots 1, 1, NE/4, NE/4", "Lots 3 - 1, W/2, W/2", "NE, N/2 of Lot 1",
@@ -179,12 +181,25 @@ def install_contracts(ctx, rep):
 
 # -- histories ----------------------------------------------------------------
 
+# Descriptions whose reading depends on an optional mode being OFF: parsed
+# by fresh objects before and after every history.
+CANARIES = [("T1S4N-R97W Sec 14: NE/4, NE", 'parse_qq'),
+            ("T154N-R97W Sec 14 NE/4, Sec 15: W/2", ''),
+            ("T154-R97 Sec 14: N/2 of Lot 1, S/2N/2NE/4", 'parse_qq'),
+            ("That part of the NE/4 of Sec 14 of T154N-R97W lying north", '')]
+
+
+def canaries(pytrs):
+    return [dcmp(pytrs.PLSSDesc(t, config=c or None)) for t, c in CANARIES]
+
+
 def rand_kw(rng):
     kw = {}
     for k, vals in dict(parse_qq=[True, False], clean_qq=[True, False],
                         segment=[True, False], sec_within=[True],
                         default_ns=['s'], qq_depth=[1, 3],
                         break_halves=[True], layout=['copy_all', 'TRS_desc'],
+                        ocr_scrub=[True],
                         sec_colon_required=[True]).items():
         if rng.random() < 0.2:
             kw[k] = rng.choice(vals)
@@ -236,6 +251,8 @@ def run_plss(case, ctx, rep, pytrs):
              shape=f"plss|ops={len(ops)}",
              sample={'text': short(txt, 100), 'config': cfg0, 'ops': ops})
     with ctx.guard(case):
+        # What a fresh object gives before the history ...
+        pre = [dcmp(pytrs.PLSSDesc(txt, config=cfg0))] + canaries(pytrs)
         d = pytrs.PLSSDesc(txt, config=cfg0)
         for i, op in enumerate(ops):
             before = dsnap(d)
@@ -261,6 +278,21 @@ def run_plss(case, ctx, rep, pytrs):
                         f"state: {first_diff(s1, dcmp(d), DNAMES[:1] + DNAMES[2:])}",
                         dedup=op[0])
                     return
+        # ... and after it: nothing the history did -- committed or not --
+        # may have changed what another, fresh object gives.
+        ctx.hit('relation:fresh-before-after')
+        post = [dcmp(pytrs.PLSSDesc(txt, config=cfg0))] + canaries(pytrs)
+        if pre != post:
+            k = [i for i, (x, y) in enumerate(zip(pre, post)) if x != y][0]
+            what = 'the same text and config' if k == 0 else \
+                f"canary text {CANARIES[k - 1][0]!r} (config {CANARIES[k - 1][1]!r})"
+            ctx.violation(
+                'history-changes-fresh-objects', case,
+                f"a fresh PLSSDesc of {what} differs after the history from "
+                f"one created before it: "
+                f"{first_diff(pre[k], post[k], DNAMES[:1] + DNAMES[2:])}",
+                dedup='fresh')
+            return
         # Reference replay.
         ctx.hit('relation:replay')
         last = max([i for i, o in enumerate(ops)
